@@ -62,7 +62,10 @@ def load_known():
                 elif f.startswith("key="):
                     key = f[4:]
             if prop and key:
-                known.setdefault(prop, {})[key] = line[5:].strip()
+                text = line[5:].strip()
+                if text.startswith(f"property={prop} "):
+                    text = text[len(f"property={prop} "):]
+                known.setdefault(prop, {})[key] = text
     return known
 
 
